@@ -1,9 +1,174 @@
 import Lean.Data.Json
-/-! Driver handlers for property C08: `handle op request` answers one JSON request. -/
-namespace Pydjinni.Drv.C08
-open Lean
+import PydjinniModel.Gen.Flags
+/-!
+Driver handlers for property C08.
 
-def handle (op : String) (_req : Json) : Except String Json :=
-  throw s!"unknown op {op}"
+* `c08.model`  what the templates emit for one enum / flags declaration, evaluated: per C-family target the list
+               `(constant, value | null)`, the Java constants, the JNI `bits` argument
+* `c08.eval`   `Lang.evalEnum` on an enumerator list given as JSON (the initialisers the harness extracted from a
+               generated header) — the implementation's observation is computed by the same evaluator
+* `c08.spec`   the specification predicate on an implementation observation
+-/
+namespace Pydjinni.Drv.C08
+open Lean Pydjinni.Gen Pydjinni.Lang
+
+partial def decodeExpr (j : Json) : Except String EExpr :=
+  match j with
+  | .str "bad" => pure .bad
+  | _ =>
+    match j.getObjVal? "lit" with
+    | .ok v => do let n ← v.getNat?; pure (.lit n)
+    | .error _ =>
+      match j.getObjValAs? String "ref" with
+      | .ok s => pure (.ref s)
+      | .error _ =>
+        match j.getObjValAs? (Array Json) "shl" with
+        | .ok #[a, b] => do pure (.shl (← decodeExpr a) (← decodeExpr b))
+        | _ =>
+          match j.getObjValAs? (Array Json) "or" with
+          | .ok #[a, b] => do pure (.bor (← decodeExpr a) (← decodeExpr b))
+          | _ => throw s!"bad expression {j.compress}"
+
+def decodeEnumerator (j : Json) : Except String Enumerator := do
+  let name ← j.getObjValAs? String "name"
+  let init ← match j.getObjVal? "init" with
+    | .ok .null => pure none
+    | .ok e => some <$> decodeExpr e
+    | .error _ => pure none
+  pure ⟨name, init⟩
+
+def optNatJ : Option Nat → Json
+  | some n => Json.num (JsonNumber.fromNat n)
+  | none => Json.null
+
+def valuationJ (l : List (String × Option Nat)) : Json :=
+  Json.arr (l.map (fun (n, v) => Json.arr #[Json.str n, optNatJ v])).toArray
+
+def strsJ (l : List String) : Json := Json.arr (l.map Json.str).toArray
+
+def decodeValuation (j : Json) : Except String (List (String × Option Nat)) := do
+  let a ← j.getArr?
+  a.toList.mapM (fun e => do
+    let p ← e.getArr?
+    match p with
+    | #[n, v] =>
+      let name ← n.getStr?
+      let val ← (match v with | .null => pure none | _ => some <$> v.getNat?)
+      pure (name, val)
+    | _ => throw "bad valuation entry")
+
+def getStrs (j : Json) (k : String) : Except String (List String) := do
+  let a ← j.getObjValAs? (Array Json) k
+  a.toList.mapM (·.getStr?)
+
+structure Req where
+  isFlags : Bool
+  items : List (Bool × Bool)          -- (all, none)
+  cpp : List String
+  objc : List String
+  cppcli : List String
+  java : List String
+  objcType : String
+
+def decodeReq (req : Json) : Except String Req := do
+  let kind ← req.getObjValAs? String "kind"
+  let items ← req.getObjValAs? (Array Json) "items"
+  let its ← items.toList.mapM (fun i => do
+    let a := (i.getObjValAs? Bool "all").toOption.getD false
+    let n := (i.getObjValAs? Bool "none").toOption.getD false
+    pure (a, n))
+  let names ← req.getObjVal? "names"
+  let r : Req := { isFlags := kind == "flags", items := its, cpp := ← getStrs names "cpp", objc := ← getStrs names "objc",
+                   cppcli := ← getStrs names "cppcli", java := ← getStrs names "java", objcType := ← req.getObjValAs? String "objcType" }
+  if r.cpp.length != its.length || r.objc.length != its.length || r.cppcli.length != its.length || r.java.length != its.length then
+    throw "names and items differ in length"
+  pure r
+
+def flagsOf (items : List (Bool × Bool)) (names : List String) : List Flag :=
+  (items.zip names).map (fun ((a, n), nm) => ⟨nm, a, n⟩)
+
+def model (req : Json) : Except String Json := do
+  let r ← decodeReq req
+  if r.isFlags then
+    let fc := flagsOf r.items r.cpp
+    pure (Json.mkObj [
+      ("cpp", valuationJ (evalEnum (emitCpp fc))),
+      ("objc", valuationJ (evalEnum (emitObjc r.objcType (flagsOf r.items r.objc)))),
+      ("cppcli", valuationJ (evalEnum (emitCppCli (flagsOf r.items r.cppcli)))),
+      ("java", strsJ (javaConstants (flagsOf r.items r.java))),
+      ("jniBits", jniBits fc),
+      ("spec", Json.arr ((specValues fc).map (fun n => Json.num (JsonNumber.fromNat n))).toArray),
+      ("pinned", valuationJ (evalEnum (emitCounterPinned "" fc fc 0)))])
+  else
+    pure (Json.mkObj [
+      ("cpp", valuationJ (evalEnum (emitEnum "" r.cpp))),
+      ("objc", valuationJ (evalEnum (emitEnum r.objcType r.objc))),
+      ("cppcli", valuationJ (evalEnum (emitEnum "" r.cppcli))),
+      ("java", strsJ r.java),
+      ("spec", Json.arr ((List.range r.items.length).map (fun n => Json.num (JsonNumber.fromNat n))).toArray)])
+
+def eval (req : Json) : Except String Json := do
+  let es ← req.getObjValAs? (Array Json) "enumerators"
+  let l ← es.toList.mapM decodeEnumerator
+  pure (Json.mkObj [("values", valuationJ (evalEnum l))])
+
+def nodup (l : List String) : Bool := l.all (fun x => (l.filter (· == x)).length == 1)
+
+/-- `spec.C08` on an implementation observation: per target `(constant, value | null)` lists (null target = nothing
+was generated), Java constants, JNI facts -/
+def spec (req : Json) : Except String Json := do
+  let r ← decodeReq req
+  let impl ← req.getObjVal? "impl"
+  let fs := flagsOf r.items r.cpp
+  let mut fails : List (String × String) := []
+  for (t, want) in [("cpp", r.cpp), ("objc", r.objc.map (r.objcType ++ ·)), ("cppcli", r.cppcli)] do
+    match impl.getObjVal? t with
+    | .ok .null => fails := fails ++ [(t, "no constants generated")]
+    | .ok j =>
+      let obs ← decodeValuation j
+      let ok := if r.isFlags then specCTarget fs obs else specEnumTarget r.items.length obs
+      if obs.length != r.items.length then fails := fails ++ [(t, "number of constants differs from the declaration")]
+      else if obs.any (fun p => p.2.isNone) then fails := fails ++ [(t, "undefined constant (use before declaration or ill-formed initialiser)")]
+      else if !ok then fails := fails ++ [(t, "constant value differs from the specification")]
+      else if obs.map (·.1) != want then fails := fails ++ [(t, "constants are not the declared items in declaration order")]
+      else if !nodup (obs.map (·.1)) then fails := fails ++ [(t, "constant names not distinct")]
+    | .error _ => pure ()
+  match impl.getObjVal? "java" with
+  | .ok .null => fails := fails ++ [("java", "no constants generated")]
+  | .ok j =>
+    let a ← j.getArr?
+    let obs ← a.toList.mapM (·.getStr?)
+    let want := if r.isFlags then ((fs.zip r.java).filter (fun p => p.1.ordinary)).map (·.2) else r.java
+    if obs != want then fails := fails ++ [("java", "constants are not the ordinary flags / items in declaration order (ordinal ≠ bit index)")]
+  | .error _ => pure ()
+  match impl.getObjVal? "javaOrdinals" with
+  | .ok .null => pure ()
+  | .ok j =>
+    let obs ← decodeValuation j
+    let want := if r.isFlags then ((fs.zip r.java).filter (fun p => p.1.ordinary)).map (·.2) else r.java
+    if obs != want.zipIdx.map (fun (n, i) => (n, some i)) then
+      fails := fails ++ [("java", "Enum.values() order / ordinals differ from the bit indices")]
+  | .error _ => pure ()
+  match impl.getObjVal? "jni" with
+  | .ok .null => fails := fails ++ [("jni", "no marshalling class generated")]
+  | .ok j =>
+    let cast := (j.getObjValAs? Bool "castsByOrdinal").toOption.getD false
+    if !cast then fails := fails ++ [("jni", "does not convert by ordinal / bit position")]
+    if r.isFlags then
+      let bits ← j.getObjValAs? Nat "bits"
+      if bits < ordinaryCount fs then fails := fails ++ [("jni", "create() considers fewer bits than there are ordinary flags")]
+  | .error _ => pure ()
+  let clauses := (if r.isFlags && !allFlagHasOrdinary fs then ["all-without-ordinary"] else [])
+    ++ (if r.isFlags && !allFlagAfterOrdinaries fs then ["all-before-ordinary"] else [])
+  pure (Json.mkObj [("holds", fails.isEmpty),
+    ("failures", Json.arr (fails.map (fun (t, w) => Json.mkObj [("target", t), ("why", w)])).toArray),
+    ("clauses", strsJ clauses)])
+
+def handle (op : String) (req : Json) : Except String Json :=
+  match op with
+  | "c08.model" => model req
+  | "c08.eval" => eval req
+  | "c08.spec" => spec req
+  | _ => throw s!"unknown op {op}"
 
 end Pydjinni.Drv.C08
